@@ -82,6 +82,44 @@ static void run_hostile(vf::Ctx& ctx, const Fac& fac, const std::string& tag, co
         if (!finite) ctx.violation(key("non-finite-result"), info().kv("info", info_name(inf)).kv("returned", ret).str());
         ctx.count("pairs_checked_finite", (long) ev.size());
     }
+    // the same run once more with a failing dense eigen kernel: the k-th iteration-limit question is answered with 0 (guarded failpoint), so a Ritz-pair
+    // extraction gives up in the middle of the iteration. Judged exactly as above: a documented exception type or finite results, nothing else.
+    if (outcome == "ok" || outcome == "runtime_error")
+    {
+        vf::Rng r2(r.next());
+        vfk::arm(r2.range(1, 10));
+        std::string o2 = "ok";
+        long ret2 = -1;
+        try
+        {
+            ctl.reset();
+            ctl.limit = bound + 2 * d.nev + 64;
+            es->init();
+            ret2 = (long) es->compute(sel, maxit, tol, srt);
+        }
+        catch (const vw::WorkBoundExceeded& e) { o2 = "work-bound"; }
+        catch (const std::invalid_argument&) { o2 = "invalid_argument"; }
+        catch (const std::runtime_error&) { o2 = "runtime_error"; }
+        catch (const std::logic_error&) { o2 = "logic_error"; }
+        catch (const std::exception& e) { o2 = std::string("other:") + typeid(e).name(); }
+        catch (...) { o2 = "other:not-a-std-exception"; }
+        const long hits = vfk::disarm();
+        ctl.limit = -1;
+        ctx.count(hits ? "kernel_failure_injected/outcome/" + o2 : std::string("kernel_failure_not_reached"));
+        if (!ctl.bad.empty()) ctx.violation(key("kernel-failure/operator-buffers"), info().kv("what", ctl.bad).str());
+        if (o2 == "work-bound") ctx.violation(key("kernel-failure/work-bound-exceeded"), info().kv("bound", bound).str());
+        else if (o2.rfind("other:", 0) == 0) ctx.violation(key("kernel-failure/undocumented-exception-type"), info().kv("type", o2).str());
+        else if (o2 == "ok")
+        {
+            const CompInfo inf = es->info();
+            if (inf != CompInfo::Successful && inf != CompInfo::NotConverging) ctx.violation(key("kernel-failure/info-after-compute"), info().kv("info", info_name(inf)).str());
+            auto ev = es->eigenvalues();
+            auto U = es->eigenvectors();
+            bool finite = all_finite(U);
+            for (long i = 0; i < (long) ev.size(); i++) finite = finite && std::isfinite((double) std::abs(ev[i]));
+            if (!finite) ctx.violation(key("kernel-failure/non-finite-result"), info().kv("info", info_name(inf)).kv("returned", ret2).kv("failpoint_hits", hits).str());
+        }
+    }
     ctx.count("evals");
     ctx.count(std::string("family/") + FSHORT[d.family]);
     ctx.count(std::string("variant/") + extra);
